@@ -38,7 +38,7 @@ type Service struct {
 	kmspb.KeyManagementServiceClient // unimplemented methods panic (nil interface)
 	mu                               sync.Mutex
 	Versions                         map[string][]*kmspb.CryptoKeyVersion // key name -> versions
-	Keys                             []string                            // key names in listing order
+	Keys                             []string                             // key names in listing order
 	// pagination scripts: number of items of each successive page (per listing kind); when exhausted
 	// full pages are served
 	VerPages, KeyPages []int
